@@ -9,6 +9,6 @@ import (
 
 func init() {
 	registry["C18"] = entry{run: c18.Run, replay: func(r *monitor.Run, d json.RawMessage) { c18.Replay(r, d) }, level: "exploration",
-		rule: "cases = segmentations of a reference MQTT byte stream (CONNECT, SUBSCRIBE, QoS1 PUBLISHes with payload sizes 0..5000 incl. 1021-1027 and 2045-2051, PINGREQ) into WebSocket binary messages: packet-aligned, several packets per message, fixed chunk size k (sample in quick, every k in 1..2100 in thorough), every single cut position of a 3 KB stream (thorough), random cuts biased to 1023-1025 bytes after packet starts, empty messages in between; the dialogue (CONNACK, SUBACK, PUBACK ids, checksums of echoed payloads, PINGRESP, frame types) must equal the expected one, which is cross-checked over plain TCP; text messages before/after CONNECT must close the connection without effect. Non-trivial = more than one WebSocket message; distinct by segmentation. Plus runs of 40-440 empty binary messages in front of every packet, and a neighbours phase (refused connections, subscribers dropping out of a flood, held read loops).",
+		rule: "cases = segmentations of a reference MQTT byte stream (CONNECT, SUBSCRIBE, QoS1 PUBLISHes with payload sizes 0..5000 incl. 1021-1027 and 2045-2051, PINGREQ) into WebSocket binary messages: packet-aligned, several packets per message, fixed chunk size k (sample in quick, every k in 1..2100 in thorough), every single cut position of a 3 KB stream (thorough), random cuts biased to 1023-1025 bytes after packet starts, empty messages in between; the dialogue (CONNACK, SUBACK, PUBACK ids, checksums of echoed payloads, PINGRESP, frame types) must equal the expected one, which is cross-checked over plain TCP; text messages before/after CONNECT must close the connection without effect. Non-trivial = more than one WebSocket message; distinct by segmentation. Plus runs of 40-440 empty binary messages in front of every packet, and a neighbours phase (refused connections, subscribers dropping out of a flood, held read loops). Neighbour connections include ones given up by the broker with most of a 3 KiB WebSocket message unread.",
 		assumptions: []string{"gorilla/websocket client", "mqttx codec", "echo subscription at QoS 0 on the client's own topic"}}
 }
